@@ -322,6 +322,20 @@ def concolic_pass(rep, group, obs, timeout, nominal=None, fixed=None, box=(0.5, 
             o.verdict, o.level, o.model = "candidate", "concolic/2", ob2.model
             o.detail = "sat on a plane through a nominal point"
             hits += 1
+    # still undecided (even on the planes): a concrete point at which the negated obligation evaluates to true is a checked
+    # model of the query - enough for a *candidate* (replayed on the real code like every other), never for a discharge
+    rng2 = np.random.default_rng(7)
+    for o in inc:
+        if o.verdict != "inconclusive":
+            continue
+        for fx in fixed_variants(fixed):
+            env = _witness(o, rng2, tries=12, box=box, fixed=fx, nominal=nominal)
+            if env is not None:
+                o.verdict, o.level = "candidate", "evaluated-model"
+                o.model = {k: repr(float(v)) for k, v in env.items() if isinstance(v, (int, float))}
+                o.detail = "the negated obligation evaluates to true at a concrete admissible point (the solver timed out)"
+                hits += 1
+                break
     if hits:
         rep.extra.setdefault("concolic_candidates", []).append({"group": group, "count": hits})
 
